@@ -4,10 +4,10 @@ from __future__ import annotations
 import ast
 import re
 
-from vk import astx, numkind, elect
+from vk import astx, numkind, elect, pairsym
 from vk.algebra import Normalizer, bool_key, literals, spec_rat, NotClosedForm
 from vk.loader import AnalysisError
-from rules import c04
+from rules import c04, c08
 
 EXPLANATION = (
     "Exactness, formula/orientation and sibling-agreement rules over PairwiseComparisonGraph and the "
@@ -132,47 +132,71 @@ def r2_counts_and_margin(ctx):
             negs = {(l[4:] if l.startswith("not ") else "not " + l) for l in fill_lits if "ballot_length" in l or f.params[2] in l}
             goodk = bool(negs) and negs <= lits
     ctx.check(goodk, f, f.node, "full-length ballots are kept unchanged", "", "complete ballots are not carried over unchanged")
-    # compute_pairwise_dict
+    # compute_pairwise_dict: the guarded stores of the pair loop, evaluated on the three sign regions of
+    # d = h(a,b) - h(b,a)  (finite case split; nothing is executed)
     f = prog.find_func("PairwiseComparisonGraph.compute_pairwise_dict")
-    pm = astx.parents(f.node)
-    N = Normalizer(f.node, inline=True)
-    hd = [n for n in astx.walk_own(f.node) if isinstance(n, ast.Dict) and len(n.keys) == 2]
-    good = False
-    if hd:
-        k0, k1 = hd[0].keys
-        v0, v1 = hd[0].values
-        a, b = [astx.u(x) for x in k0.elts]
-        good = astx.u(k1) == f"({b}, {a})" and astx.u(v0) == f"self.head2head_count({a}, {b})" and astx.u(v1) == f"self.head2head_count({b}, {a})"
-    ctx.check(good, f, hd[0] if hd else f.node, "both orientations counted with matching argument order", "", "the two head-to-head counts are not keyed by their own (winner, loser) order")
-    stores = [n for n in astx.walk_own(f.node) if isinstance(n, ast.Assign) and isinstance(n.targets[0], ast.Subscript) and astx.u(n.targets[0].value) == "pairwise_dict"]
-    Nn = Normalizer(f.node, inline=False)
-    nonzero = []
-    zero = []
-    for s in stores:
-        lits = literals(Nn.conj(astx.path_condition(f.node, s, pm)))
-        (nonzero if any(l.startswith("not eq(") for l in lits) else zero).append((s, lits))
-    good = False
-    d = ""
-    if len(nonzero) == 1 and hd:
-        s, lits = nonzero[0]
-        a, b = [astx.u(x) for x in hd[0].keys[0].elts]
-        idx = astx.u(s.targets[0].slice)
-        mp = astx.unique_def(f.node, idx.split("[")[0])
-        vk = N.key(s.value)
-        d = f"pairwise_dict[{idx}] = {vk} under {sorted(lits)}; {idx.split('[')[0]} = {astx.u(mp) if mp is not None else None}"
-        okmax = mp is not None and re.fullmatch(r"max\(zip\((\w+)\.values\(\), \1\.keys\(\)\)\)", astx.u(mp)) is not None
-        diff1 = f"self.head2head_count({a}, {b}) - self.head2head_count({b}, {a})"
-        diff2 = f"-self.head2head_count({a}, {b}) + self.head2head_count({b}, {a})"
-        good = okmax and idx.endswith("[1]") and vk in (f"abs({diff1})", f"abs({diff2})") and \
-            lits in ({f"not eq({diff1}, 0)"}, {f"not eq({diff2}, 0)"})
-    ctx.check(good, f, nonzero[0][0] if nonzero else f.node, "margin = |h(a,b) - h(b,a)| stored under the key with the larger count, when they differ", d,
-              f"margin store is `{d}`")
-    good = len(zero) == 2 and {astx.u(s.targets[0].slice) for s, _ in zero} == ({f"({a}, {b})", f"({b}, {a})"} if hd else set()) \
-        and all(astx.u(s.value) in ("Fraction(0)", "0") for s, _ in zero)
-    ctx.check(good, f, zero[0][0] if zero else f.node, "pairwise tie: both orientations stored with margin 0", "", "a pairwise tie is not stored as 0 in both directions")
-    pairs = astx.unique_def(f.node, "cand_pairs")
-    ctx.check(pairs is not None and astx.u(pairs) == "combinations(self.candidates, 2)", f, pairs or f.node, "every unordered pair of candidates is visited once", "",
+    pls = pairsym.pair_loops(f.node)
+    if len(pls) != 1:
+        raise AnalysisError("compute_pairwise_dict: expected exactly one loop over combinations(<candidates>, 2)")
+    lp, a, b = pls[0]
+    it = lp.iter if not isinstance(lp.iter, ast.Name) else astx.unique_def(f.node, lp.iter.id)
+    ctx.check(it is not None and astx.u(astx.strip_wrappers(it)) == "combinations(self.candidates, 2)", f, lp, "every unordered pair of candidates is visited once", "",
               "pairs are not combinations(self.candidates, 2)")
+    idx = [x for x in astx.walk_own(f.node) if isinstance(x, ast.For)].index(lp)
+    stores = pairsym.guarded_stores(f.node, idx, a, b)
+    N0 = Normalizer(None, inline=False)
+    dsrc = f"self.head2head_count({a}, {b}) - self.head2head_count({b}, {a})"
+    d = N0.rat(ast.parse(dsrc, mode="eval").body)
+    regs_pos, _ = pairsym.sign_regions(literals(N0.guard(ast.parse(dsrc + " > 0", mode="eval").body)))
+    (Q, rp), = regs_pos.items()
+    flip = {"pos": "neg", "neg": "pos", "zero": "zero"}
+    absk = f"abs({min(d.normalised().key(), (-d).normalised().key())})"
+    dd = "{" + ", ".join(sorted([f"({a}, {b}): self.head2head_count({a}, {b})", f"({b}, {a}): self.head2head_count({b}, {a})"])) + "}"
+    argmax = f"max(zip({dd}.values(), {dd}.keys()))[1]"
+    table = {r: set() for r in pairsym.REGIONS}
+    problems = []
+    for cont, key, val, regs, rest, N, tag, st in stores:
+        if cont != "pairwise_dict" and not any(isinstance(x, ast.Return) and astx.u(x.value) == cont for x in astx.walk_own(f.node)):
+            continue  # a scratch dictionary, not the result
+        if rest or set(regs) - {Q}:
+            problems.append(f"store `{astx.u(st)[:60]}` is guarded by something other than the sign of h({a},{b}) - h({b},{a}): {sorted(rest) + sorted(set(regs) - {Q})}")
+            continue
+        kk = N.key(key)
+        try:
+            v = N.rat(val)
+        except NotClosedForm:
+            v = None
+        for r in pairsym.REGIONS:  # r: sign of d
+            rq = r if rp == frozenset({"pos"}) else flip[r]
+            if rq not in regs.get(Q, frozenset(pairsym.REGIONS)):
+                continue
+            if kk == f"[{a}, {b}]":
+                kc = "ab"
+            elif kk == f"[{b}, {a}]":
+                kc = "ba"
+            elif kk == argmax and r != "zero":
+                kc = "ab" if r == "pos" else "ba"
+            else:
+                kc = "?" + kk[:60]
+            if v is None:
+                vc = "?" + N.key(val)[:60]
+            elif v.is_zero() or r == "zero" and (v.equals(d) or v.equals(-d) or v.key() == absk):
+                vc = "0"
+            elif v.key() == absk:
+                vc = "|d|"
+            elif v.equals(d):
+                vc = "|d|" if r == "pos" else "-|d|"
+            elif v.equals(-d):
+                vc = "|d|" if r == "neg" else "-|d|"
+            else:
+                vc = "?" + v.key()[:80]
+            table[r].add((kc, vc, tag))
+    d_txt = "; ".join(f"d{'>' if r == 'pos' else '<' if r == 'neg' else '='}0: {sorted(table[r])}" for r in ("pos", "neg", "zero"))
+    good = not problems and table["pos"] == {("ab", "|d|", "")} and table["neg"] == {("ba", "|d|", "")}
+    ctx.check(good, f, lp, "margin = |h(a,b) - h(b,a)| stored under the (winner, loser) key when the two counts differ", d_txt,
+              f"with d = h({a},{b}) - h({b},{a}) the stores are: {d_txt}" + ("; " + "; ".join(problems) if problems else ""))
+    good = not problems and table["zero"] == {("ab", "0", ""), ("ba", "0", "")}
+    ctx.check(good, f, lp, "pairwise tie: both orientations stored with margin 0", d_txt, f"with d = h({a},{b}) - h({b},{a}) the stores are: {d_txt}")
     # graph orientation
     f = prog.find_func("PairwiseComparisonGraph.build_graph")
     edges = astx.calls_in(f.node, "add_edge")
@@ -294,7 +318,7 @@ def r4_condoborda(ctx):
 
 RULES = [
     ("C06.R1", r1_exact, 3, "exact rationals in ballot_fill / head2head_count / compute_pairwise_dict"),
-    ("C06.R2", r2_counts_and_margin, 10, "head-to-head counting, ballot completion, margin formula and key orientation, graph edges"),
+    ("C06.R2", r2_counts_and_margin, 9, "head-to-head counting, ballot completion, margin formula and key orientation, graph edges"),
     ("C06.R3", r3_tiers, 9, "tiers by reach-set size descending; every consumer uses index 0; DominatingSets / CondoBorda wiring"),
     ("C06.R4", r4_condoborda, 3, "CondoBorda: selector with tiebreak='borda' on the same profile; recorded Borda scores of the result"),
 ]
@@ -311,6 +335,8 @@ FAULTS = [
     ("margin under loser key", [(PG, "pairwise_dict[max_pair[1]] = abs(", "pairwise_dict[min(zip(head_2_head_dict.values(), head_2_head_dict.keys()))[1]] = abs(")], "C06.R2"),
     ("margin is winner count", [(PG, "                pairwise_dict[max_pair[1]] = abs(\n                    self.head2head_count(cand_a, cand_b)\n                    - self.head2head_count(cand_b, cand_a)\n                )",
                                  "                pairwise_dict[max_pair[1]] = abs(\n                    self.head2head_count(cand_a, cand_b)\n                )")], "C06.R2"),
+    ("reverse count derived from the total weight (seeded C08-r2-1)", [(PG, ("        for pair in cand_pairs:", "        return pairwise_dict"), c08._PAIR_ONE_SIDED)], "C06.R2"),
+    ("margin stored under the loser's key in explicit branches", [(PG, ("        for pair in cand_pairs:", "        return pairwise_dict"), c08._PAIR_SYMMETRIC.replace("if margin > 0:", "if margin < 0:").replace("elif margin < 0:", "elif margin > 0:"))], "C06.R2"),
     ("tie stored one way", [(PG, "                pairwise_dict[(cand_b, cand_a)] = Fraction(0)\n", "")], "C06.R2"),
     ("edges reversed", [(PG, "G.add_edge(e[0], e[1], weight=self.pairwise_dict[e])", "G.add_edge(e[1], e[0], weight=self.pairwise_dict[e])")], "C06.R2"),
     ("tiers ascending", [(PG, "tier_list = [tier_dict[k] for k in sorted(tier_dict.keys(), reverse=True)]", "tier_list = [tier_dict[k] for k in sorted(tier_dict.keys())]")], "C06.R3"),
@@ -322,6 +348,7 @@ FAULTS = [
     ("condoborda reversed tiers", [(CB, "dt_ranking = tuple([frozenset(s) for s in dominating_tiers])", "dt_ranking = tuple([frozenset(s) for s in dominating_tiers[::-1]])")], "C06.R3"),
 ]
 BENIGN = [
+    ("pair loop rewritten with explicit margin branches", [(PG, ("        for pair in cand_pairs:", "        return pairwise_dict"), c08._PAIR_SYMMETRIC)]),
     ("has_condorcet compare flipped", [(PG, "if len(dominating_tiers[0]) == 1:", "if 1 == len(dominating_tiers[0]):")]),
     ("margin difference flipped under abs", [(PG, "                pairwise_dict[max_pair[1]] = abs(\n                    self.head2head_count(cand_a, cand_b)\n                    - self.head2head_count(cand_b, cand_a)\n                )",
                                               "                pairwise_dict[max_pair[1]] = abs(\n                    self.head2head_count(cand_b, cand_a)\n                    - self.head2head_count(cand_a, cand_b)\n                )")]),
